@@ -101,9 +101,11 @@ def simulate(program, deselected=None):
 
     layers = [Layer("testrun", "")]
 
+    omitted = set(program.get("omit_hooks") or [])
+
     def hook(name, ident, owner=None, is_open=False):
         """Returns True if the hook raised."""
-        if dry:
+        if dry or name in omitted:
             return False
         k = len(ref.hooks)
         ref.hooks.append((name, ident, is_open))
